@@ -178,6 +178,7 @@ struct Harness {
     virtual std::vector<std::string> props() const = 0;
     virtual uint64_t runs(const std::string &prop, const Tier &t) const = 0;
     virtual Json gen(const std::string &prop, Rng &r, const Tier &t, uint64_t idx) = 0;
+    virtual unsigned time_limit(const Json & /*plan*/) const { return 60; }   // wall-clock seconds after which a run counts as hung
     virtual void exec(const Json &plan, Ctx &c) = 0;
     // description for the evidence file
     virtual Json describe(const std::string &prop) const = 0;
